@@ -132,7 +132,7 @@ func (eng *Engine) verifyContract(ct *Contract) (res *FuncResult) {
 		vc.frame.strict = true
 		for _, cl := range ct.Modifies {
 			v := vc.evalClauseVal(cl, args, st, nil)
-			vc.frame.refs = append(vc.frame.refs, vc.def(refSort, "modref", app("g_iref", v.S)))
+			vc.frame.refs = append(vc.frame.refs, vc.def(refSort, "modref", app("g_iref", v.S))+"\x01"+eng.clauseTags(cl, vc.def(bvSort(32), "modtag", app("g_itag", v.S))))
 		}
 	}
 	entry := st.clone()
